@@ -161,7 +161,7 @@ class CachedProxy(Cached[T_Stored]):
 		basepath = '-'.join(elems)
 		file_format = self._options.get('format', '')
 		extention = f'.{file_format}' if file_format else ''
-		glob_pattern = f'{basepath}-*{extention}'
+		glob_pattern = f'{glob.escape(basepath)}-*{extention}'
 		return glob.glob(glob_pattern)
 
 	def load_cache(self, cache_path: str) -> T_Stored:
